@@ -1,4 +1,4 @@
-// h_junk.cpp - independence of every observable result from the content of uninitialised heap memory (modes C06junk, C07junk, C09junk, C14junk, C15junk, C17junk).
+// h_junk.cpp - independence of every observable result from the content of uninitialised heap memory (modes C06junk, C07junk, C09junk, C14junk, C15junk, C16junk, C17junk, C19junk).
 // ASan/UBSan do not see reads of uninitialised memory, MemorySanitizer needs every dependency instrumented, and memcheck drowns in cfitsio's scans of fresh
 // buffers. This monitor decides the same question by intervention instead: malloc/realloc are defined in the harness executable (libstdc++, cfitsio, CHOLMOD
 // and the C fitter reach them through the PLT) and fill every fresh byte - new blocks and the grown tail of reallocated ones - with a chosen pattern while a
@@ -84,6 +84,17 @@ static Obs run_table_scenario(const Scenario &sc, const std::string &mode, int j
 		unlink(sc.outpath.c_str()); { Junk j(junk); T->write_fits(sc.outpath); } std::vector<unsigned char> fb; read_file(sc.outpath, fb); unlink(sc.outpath.c_str());
 		o.push_back({"write_fits:bytes", bytes_digest(fb.data(), fb.size())}); o.push_back({"write_fits:meaning", fits_meaning_digest(fb.data(), fb.size())});
 		{ Junk j(junk); T->write_key("ADDED", 12.5); T->write_key("KEY0", "replaced"); T->remove_key("ADDED"); } Obs o3; observe_table(*T, o3, rp); for (auto &kv : o3) if (kv.first == "aux") o.push_back({"after-key-edits:aux", kv.second});
+	} else if (mode == "C19junk") { // the estimate itself (it reads the file through cfitsio) and the load + convolution it speaks about
+		size_t e1 = 0, e2 = 0; { Junk j(junk); e1 = Table::estimateMemory(sc.path, 1, 0); e2 = Table::estimateMemory(sc.path, (uint32_t)sc.tau.size(), sc.cdim); } o.push_back({"estimateMemory(load)", e1}); o.push_back({"estimateMemory(convolution)", e2});
+		if (sc.conv_ok) { { Junk j(junk); T->convolve(sc.cdim, sc.tau.data(), sc.tau.size()); } Obs o2; observe_table(*T, o2, rp); for (auto &kv : o2) o.push_back({"convolved:" + kv.first, kv.second}); }
+	} else if (mode == "C16junk") { // a fixed history of key edits and round trips; the store is observed after every step
+		static const char *ks[] = {"KEY0", "NEWKEY", "A_LONGER_KEYWORD", "KEY1", "ANOTHER_LONG_KEYWORD_OF_FORTY_CHARACTERS_X", "Z"}; Rng rk(sc.pseed, "junkkeys", 3);
+		for (int step = 0; step < 14; step++) { int what = (int)rk.below(6); std::string k = ks[rk.below(6)]; bool threw = false; uint64_t ret = 0;
+			{ Junk j(junk); try { switch (what) { case 0: T->write_key(k.c_str(), (int)rk.below(100000)); break; case 1: T->write_key(k.c_str(), (rk.U() - 0.5) * 1e7); break; case 2: T->write_key(k.c_str(), std::string(1 + rk.below(30), (char)('a' + rk.below(26))) + (rk.coin(0.3) ? "'s" : "")); break; case 3: ret = T->remove_key(k.c_str()); break;
+				case 4: { int iv = -1; double dv = -1; std::string sv; ret = (uint64_t)T->read_key(k.c_str(), iv) * 4 + (uint64_t)T->read_key(k.c_str(), dv) * 2 + (uint64_t)T->read_key(k.c_str(), sv); ret = hash_mix(ret, (uint64_t)iv); ret = hash_d(ret, dv); ret = hash_mix(ret, hash_str(sv)); break; }
+				default: { auto w = T->write_fits_mem(); std::unique_ptr<Table> R(new Table); R->read_fits_mem(w.first, w.second); ret = fits_meaning_digest(w.first, w.second); free(w.first); T = std::move(R); break; } } } catch (std::exception &) { threw = true; } }
+			uint64_t h = hash_mix(ret, threw); for (size_t i = 0; i < T->get_naux_values(); i++) { const char *kk = T->get_aux_key(i); h = hash_mix(h, hash_str(kk ? kk : "<null>")); const char *v = kk ? T->get_aux_value(kk) : nullptr; h = hash_mix(h, hash_str(v ? v : "<null>")); }
+			o.push_back({"key-history:step" + std::to_string(step) + ":op" + std::to_string(what), h}); }
 	} else if (mode == "C15junk") {
 		{ Junk j(junk); T->permuteDimensions(sc.perm); } Obs o2; observe_table(*T, o2, rp); for (auto &kv : o2) o.push_back({"permuted:" + kv.first, kv.second});
 		std::pair<void *, size_t> w(nullptr, 0); { Junk j(junk); w = T->write_fits_mem(); } o.push_back({"permuted:write_fits_mem:meaning", fits_meaning_digest(w.first, w.second)}); free(w.first);
@@ -133,7 +144,7 @@ static void judge(const std::string &prop, const std::string &what, const std::v
 
 static void run_table_case(const Args &a, long cs, const std::string &mode) {
 	Rng r(a.seed, mode.c_str(), cs);
-	GenOpts g; g.min_dim = 1; g.max_dim = mode == "C06junk" ? 6 : 4; g.max_coef = 4000; g.max_block = 512; g.max_order = mode == "C14junk" ? 3 : 5; g.special_coef = mode == "C06junk" && r.coin(0.3); g.mag_exp_max = 6; g.strict_increasing = mode == "C14junk"; g.extra_knots_max = 5;
+	GenOpts g; g.min_dim = 1; g.max_dim = mode == "C06junk" ? 6 : 4; g.max_coef = 4000; g.max_block = 512; g.max_order = (mode == "C14junk" || mode == "C19junk") ? 3 : 5; g.special_coef = mode == "C06junk" && r.coin(0.3); g.mag_exp_max = 6; g.strict_increasing = mode == "C14junk" || mode == "C19junk"; g.extra_knots_max = 5;
 	Scenario sc; sc.s = gen_spec(r, g); Spec &s = sc.s; int nd = s.ndim();
 	// optional parts of the file: each absent in a good share of the cases (what the reader must then fill in itself is exactly what this monitor looks at)
 	s.has_extents = !r.coin(0.35); if (!s.has_extents) s.extents.clear();
@@ -155,7 +166,7 @@ static void run_table_case(const Args &a, long cs, const std::string &mode) {
 	std::vector<Obs> runs; long fb0 = g_filled_blocks;
 	for (int m = 0; m < NJUNK; m++) { phase_log(std::string("run with heap pattern ") + junk_name(m)); try { runs.push_back(run_table_scenario(sc, mode, m)); } catch (std::exception &e) { g_junk = 0; if (m == 0) { note("clean-run-threw(skipped):" + std::string(e.what()).substr(0, 40)); runs.clear(); break; } viol(mode.substr(0, 3) + ":" + mode + ":threw-only-with-heap-pattern:" + junk_name(m), "{\"what\":" + jstr(e.what()) + ",\"case\":" + cj + "}"); runs.clear(); break; } }
 	count("fresh-blocks-filled", g_filled_blocks - fb0);
-	if (!runs.empty()) { judge(mode.substr(0, 3), mode == "C06junk" ? "read/write" : mode == "C15junk" ? "permuteDimensions" : mode == "C14junk" ? "convolve" : "grideval/stack", runs, cj); distinct(hash_mix(s.hash(), sc.variant * 16 + (s.has_extents ? 1 : 0) + (s.periods.empty() ? 2 : 0))); }
+	if (!runs.empty()) { judge(mode.substr(0, 3), mode == "C06junk" ? "read/write" : mode == "C15junk" ? "permuteDimensions" : mode == "C14junk" ? "convolve" : mode == "C16junk" ? "aux-keys" : mode == "C19junk" ? "estimateMemory" : "grideval/stack", runs, cj); distinct(hash_mix(s.hash(), sc.variant * 16 + (s.has_extents ? 1 : 0) + (s.periods.empty() ? 2 : 0))); }
 	g_stale = nullptr; g_stale_n = 0; free(ob.p); free(sc.file.p); unlink(sc.path.c_str());
 	if (cs % 40 == 0) sample(cj);
 }
@@ -229,7 +240,7 @@ int main(int argc, char **argv) {
 		std::string m = a.prop; prop_id() = m.substr(0, 3);
 		if (m == "C09junk") run_fit_case(a, cs);
 		else if (m == "C07junk") run_hostile_case(a, cs);
-		else if (m == "C06junk" || m == "C14junk" || m == "C15junk" || m == "C17junk") run_table_case(a, cs, m);
+		else if (m == "C06junk" || m == "C14junk" || m == "C15junk" || m == "C17junk" || m == "C16junk" || m == "C19junk") run_table_case(a, cs, m);
 		else { fprintf(stderr, "unknown mode %s\n", m.c_str()); return 2; }
 	}
 	finish();
